@@ -195,6 +195,11 @@ def check_finish_cycle(chk, prog):
         return
     ip = interp_for(prog)
     ZERO = ("f", 0.0)
+    # the values allocation_debt() may return when evaluated on the state in which finish_cycle is entered
+    try:
+        allowed_carry = {o.value for o in debt_outcomes(prog)[0]}
+    except (interp.Unmodelled, interp.InterpError):
+        allowed_carry = None
     for reset in (1, 0):
         st = mk_state(prog)
         try:
@@ -224,6 +229,9 @@ def check_finish_cycle(chk, prog):
             else:
                 if a == ("sym", "artificial_debt") or (a != ZERO and not (a[0] == "app" and a[1] == "max")):
                     probs.append("carried-over debt is `%s`, specification says the (clamped) outstanding allocation debt" % fmt(a))
+                elif allowed_carry is not None and a not in allowed_carry:
+                    probs.append("carried-over debt `%s` is not the allocation debt of the cycle that just finished (it is "
+                                 "computed after the cycle's own wake-up amount / counters were already replaced)" % fmt(a)[:300])
             for keep in ("total_gcs",):
                 if field(prog, o.st, keep) != ("sym", keep):
                     probs.append("finish_cycle changed %s" % keep)
